@@ -145,6 +145,70 @@ PROPS = {
              "Exploration.",
              "trusts service/state for building the expected hash (checked by C14) and the harness contract's own record of what it did; sequential executor only; "
              "no external EE", "DESIGN §6 (C16)"),
+    "C11": P("hpool", "model-based PBT of block trees (forks, commits, restarts) over the real locator manager, plus chained real transitions, plus window-edge probes",
+             "For generated chains with forks, commits and restarts under any fixed threshold, a block repeating an id of itself or of any ancestor, or holding a "
+             "timestamp outside (T-th, T+th], is never accepted, at the locator-tracker API and at OnValidate of real transitions; edges +-1 and every duplicate "
+             "placement are constructed. Exploration; per-block varying thresholds are only reported (labelled experiment).",
+             "trusted base: MapDB, harness transaction types, state/scoredb for setting the threshold; consensus proposes on finalized parents", "DESIGN §6 (C11)"),
+    "C37": P("hpool", "differential (pool selection versus a peer's validating transition on the same parent) plus an independent cumulative-balance/window/replay "
+             "model over generated pools",
+             "For generated pools, balances, fee settings and multi-round histories every Candidate() output is accepted by a real validating transition and satisfies "
+             "the stated per-transaction conditions, with edge timestamps, finalized ids in the pool and balance exhaustion constructed. Exploration.",
+             "trusted base: harness set-up transaction, world snapshot reads for initial balances, MapDB; order and non-starvation are not decided", "DESIGN §6 (C37)"),
+    "C07": P("hblock", "rapid: two real block managers, chosen commit-vote timestamps, single/multi-field mutations with re-derived hashes, reference-median "
+             "oracle on Import",
+             "Every candidate's import verdict is compared with an independent evaluation of the stated rule (height, prevID, state-required version, timestamp = "
+             "median of commit vote timestamps computed by an own sort, > parent's), including median boundaries for odd and even vote counts. Exploration.",
+             "votes are always validly signed (C05 decides otherwise); non-negative small timestamps; the repository's test service manager", "DESIGN §5 (C07)"),
+    "C08": P("hblock", "rapid: real chains -> round trip, body-component grafts and byte mutations through BlockDataFactory with a header-vs-decoded-content hash "
+             "oracle and a runaway watchdog; native go fuzz in thorough",
+             "Every decoded input is checked against hashes recomputed from the decoded content and the header read from the input bytes; thousands of grafts and "
+             "byte mutations per run incl. non-empty BTP digests; a decoder that does not return while allocating >1 GiB is a violation. Exploration + "
+             "coverage-guided fuzzing.",
+             "trusts goloop's tx-list hash and codec for recomputation; time-only hangs are inconclusive", "DESIGN §5 (C08)", fuzz=[("FuzzC08Decode", 180)]),
+    "C22": P("hdata2", "enumerated boundary sizes plus rapid sizes; index and order identity on built and re-opened lists of real transactions and receipts",
+             "For every required size, including 127/128, 255/256, 32767/32768 and 65535/65536/65537, full iteration and per-index lookup return exactly the "
+             "original items in order, before and after Flush and re-open. Exploration over sizes.",
+             "transactions are unsigned stubs made from one template; receipt versions 1 and 2 only", "DESIGN §6 (C22)", qt=600, shards=4),
+    "C23": P("hdata2", "rapid (round trip, determinism and sorted keys via an independent RLP splitter, narrowing, must-reject, mutation decoding into 20 targets with "
+             "a fixed-point and decoder-state canary) plus native go fuzz in thorough",
+             "Values of a broad supported-type family round-trip with nil and empty kept apart and deterministic sorted-map encodings; out-of-range numbers, truncated "
+             "inputs and inflated sizes are rejected by every target; arbitrary bytes never crash any target and never disturb a later decode. Exploration + fuzzing.",
+             "'supported' as read from encodeValue/decodeValue; pointer-to-container and interface fields are excluded; msgpack is not covered", "DESIGN §7 (C23)",
+             fuzz=[("FuzzC23Decode", 180)]),
+    "C24": P("hdata2", "rapid; independent math/big two's-complement reference and a second text parser over boundary-biased 64-bit and big integers",
+             "Every generated integer is compared byte-for-byte with an independently computed minimal encoding and decoded/parsed back through every intconv and HexInt "
+             "entry point; ~20k values per quick run concentrated on byte-length boundaries. Exploration.",
+             "trusts math/big and encoding/json", "DESIGN §7 (C24)"),
+    "C25": P("hdata2", "rapid; differential against a clean-room legacy LZW encoder, stdlib decoder cross-check, Python-derived pinned goldens",
+             "Compress output is byte-compared with an independent encoder on inputs that exercise width growth, dictionary reset and closing-step edges, and must "
+             "decompress through both goloop's and the stdlib reader. Agreement of three implementations plus goldens is evidence, not proof, of historic-format "
+             "equality.",
+             "the reference encoder and goldens are the harness author's reading of the legacy (Go <= 1.16) format", "DESIGN §7 (C25)"),
+    "C26": P("hdata2", "rapid; logs through real receipts and merges, queried with API-built and independently computed SHA3 three-bit blooms, across compressed, "
+             "bytes, JSON and persisted forms",
+             "Every address and indexed value of every generated log must be reported by the receipt bloom and by every carried form of the merged block bloom. "
+             "Exploration; no false-positive claim.",
+             "trusts x/crypto/sha3", "DESIGN §7 (C26)"),
+    "C28": P("hdata2", "rapid; two differently driven accumulators plus an independent 16-ary reference root, independent proof-chain verification and verifier trees "
+             "with 11 alteration kinds, SetLen walks and enumerated rewinds against recorded per-prefix headers",
+             "Headers are sequence-determined and equal to an independent reference; proofs of all or boundary keys verify independently and via MerkleTree.Add while "
+             "altered ones are rejected; every rewind is compared with fresh accumulation, including forks. Exploration up to 5000 (quick) / 70000 (thorough) leaves.",
+             "leaves are distinct SHA3 values; MapDB is the store", "DESIGN §7 (C28)"),
+    "C34": P("hicon", "rapid state machine over icsim at the latest revision with a receipt-driven ledger and invariants I1-I4 compared after every block",
+             "Random multi-term histories of valid and invalid staking, delegation, bond, transfer, registration and claim transactions run on the real extension state; "
+             "after every block exact per-account balances, stake, votes, supply conservation, network totals and per-entry unstake expiry are compared. Exploration.",
+             "trusts icsim's world/transfer model and receipt status; penalties, unregistration and fees are out of scope; icsim configured with Rrep != 0 and a "
+             "funded treasury", "DESIGN §9 (C34)"),
+    "C35": P("hicon", "generated terms run through the real IISS4 reward calculation; budget inequality plus per-voter share recomputed independently with math/big",
+             "Every generated term is executed by the real calculator over real stage/reward states; the total credited I-Score is bounded by the exact term budget and "
+             "every voter's credit equals the floor share computed from the generated history. Exploration.",
+             "trusts icstage/icreward storage and PRep.VoterReward/GetReward as the observation; rewardability and the inter-P-Rep split are not decided",
+             "DESIGN §9 (C35)"),
+    "C36": P("hdata2", "rapid; round trip plus must-accept/must-reject against the regular language ^(hx|cx)[0-9a-f]{40}$ with 15 near-miss mutation kinds",
+             "The strict parser's verdict is compared with the regular language for 20k addresses and candidates per run, including case, length, prefix and unicode "
+             "near misses, and all byte forms are round-tripped into stale receivers. Exploration.",
+             "the canonical form is taken from server/jsonrpc/validator.go", "DESIGN §7 (C36)"),
 }
 
 # properties not (yet) claimed -> reason
@@ -154,6 +218,8 @@ HOOKS = {
     # /repo path (only compiled with -tags verif) -> canonical copy in /verif/hooks
     "network/verif_hooks.go": "network_verif_hooks.go",
     "consensus/verif_hooks_sim.go": "consensus_verif_hooks_sim.go",
+    "icon/iiss/calculator/verif_hooks.go": "calculator_verif_hooks.go",
+    "icon/icsim/verif_hooks.go": "icsim_verif_hooks.go",
 }
 
 
